@@ -364,6 +364,23 @@ func (w *worker) runLayout(c caseIn, layout int, tr *trace, verify bool) bool {
 				w.aliasable++
 			}
 		}
+		// a CHECKPREDICATE child runs on the same item memory: note the first appending opcode of
+		// the predicate so that damage done inside the child is keyed by its mechanism
+		childAppender := byte(0)
+		if ds := d.DataStack(); opc == 0xc0 && len(ds) >= 2 {
+			pred := string(ds[len(ds)-2])
+			for pc := uint32(0); uint64(pc) < uint64(len(pred)); {
+				o, _, ln, e := parse(pred, pc)
+				if e != eOK {
+					break
+				}
+				if o == 0x7e || o == 0x89 {
+					childAppender = o
+					break
+				}
+				pc += ln
+			}
+		}
 		var before []string
 		if layout == 0 {
 			before = append([]string{}, ref.data...)
@@ -384,7 +401,7 @@ func (w *worker) runLayout(c caseIn, layout int, tr *trace, verify bool) bool {
 					w.report("checkpredicate-result-not-boolean", "CHECKPREDICATE with an undecided child did not push a boolean", c, layout, k, extra(k, ic))
 					return false
 				}
-				ref.adopt(string(ds[len(ds)-1]))
+				ref.adopt(string(ds[len(ds)-1]), d.RunLimit())
 				tr.adopted++
 				re = eOK
 			} else if re == eUnknown {
@@ -400,12 +417,16 @@ func (w *worker) runLayout(c caseIn, layout int, tr *trace, verify bool) bool {
 		}
 		s := tr.steps[k]
 		name := opName(opc)
+		blame := name // whom to name when memory the instruction must not touch changes
+		if opc == 0xc0 && childAppender != 0 {
+			blame = opName(childAppender) // the damage is done by the child program's CAT/CATPUSHDATA
+		}
 		// (ii) the caller's memory, after every instruction
 		if region, spareOnly := m.callerDamage(c, layout); region != "" {
 			if spareOnly {
 				w.spareWrites++
 			} else {
-				w.report(name+"-aliases-neighbour", fmt.Sprintf("%s (instruction %d) overwrote the caller's %s bytes", strings.ToUpper(name), k, region), c, layout, k,
+				w.report(blame+"-aliases-neighbour", fmt.Sprintf("%s (instruction %d) overwrote the caller's %s bytes", strings.ToUpper(name), k, region), c, layout, k,
 					func() map[string]interface{} {
 						e := extra(k, ic)
 						e["damaged_region"] = region
@@ -434,14 +455,14 @@ func (w *worker) runLayout(c caseIn, layout int, tr *trace, verify bool) bool {
 			key := name + "-result-differs-from-reference"
 			what := fmt.Sprintf("%s (instruction %d): data stack item %d differs from the value-semantics reference", strings.ToUpper(name), k, i)
 			if i < s.keep {
-				key = name + "-aliases-neighbour"
+				key = blame + "-aliases-neighbour"
 				what = fmt.Sprintf("%s (instruction %d) changed data stack item %d, which the instruction does not touch", strings.ToUpper(name), k, i)
 			}
 			w.report(key, what, c, layout, k, extra(k, ic))
 			return false
 		}
 		if i := sameItems(d.AltStack(), s.alt); i >= 0 {
-			key := name + "-aliases-neighbour"
+			key := blame + "-aliases-neighbour"
 			if opc == 0x6b || opc == 0x6c {
 				key = name + "-result-differs-from-reference"
 			}
